@@ -159,6 +159,7 @@ def run(ctx, impl_only=False):
     numpy_pairs(ctx)
     align_sound(ctx)
     local_zone(ctx)
+    close_floats(ctx)
     if not impl_only:
         FAM.compare_with_model(ctx, reqs)
     wit = {'F5e': lambda: bool(DeepDiff({'NONE'}, {None})),
@@ -170,6 +171,30 @@ def run(ctx, impl_only=False):
             (ctx.known_not_reproduced if ok else ctx.known_reproduced).append(fid if ok else '%s: %s' % (fid, findings[fid]['what_fails']))
         elif not ok:
             ctx.violate({'witness': fid}, 'boundary witness %s fails and is not a listed finding' % fid)
+
+
+def close_floats(ctx):
+    """floats that differ by as little as floats can: adjacent representable numbers, tiny magnitudes, the two smallest positive numbers --
+    wherever they sit (leaf, item, dictionary value, set member), t1 != t2, so the plain diff is not empty"""
+    import math
+    from deepdiff import DeepDiff
+    pairs = [(0.1, math.nextafter(0.1, 1)), (1.0, math.nextafter(1.0, 2)), (1.0, math.nextafter(1.0, 0)), (1e-20, 2e-20), (0.0, 5e-324), (5e-324, 1e-323), (1e-300, -1e-300),
+             (1e16, 1e16 + 2), (-2.5, math.nextafter(-2.5, 0)), (1e-17, 0.0), (3.0000000000000004, 3.0), (123456.789, math.nextafter(123456.789, 0))]
+    wraps = [lambda v: v, lambda v: [v], lambda v: {'k': v}, lambda v: (1, v), lambda v: {v}, lambda v: [{'a': [v, 'x']}, 0], lambda v: {'k': {'j': v}, 'z': 1.5}]
+    for a, b in pairs:
+        for w in wraps:
+            for cfg in ({}, {'view': 'tree'}, {'verbose_level': 2}, {'zip_ordered_iterables': True}, {'threshold_to_diff_deeper': 0}):
+                ctx.evaluations += 1
+                x, y = w(a), w(b)
+                case = {'t1': repr(x), 't2': repr(y), 'cfg': cfg, 'clause': 'empty=>equal (adjacent floats)'}
+                try:
+                    d = DeepDiff(x, y, **cfg)
+                except Exception as e:
+                    ctx.violate(case, 'DeepDiff raised %s' % type(e).__name__); continue
+                ctx.count('close_floats')
+                ctx.nontriv((repr(x), repr(y), repr(sorted(cfg.items()))))
+                if not d:
+                    ctx.violate(case, 'empty diff although t1 != t2')
 
 
 ZONE_SCRIPT = r'''
